@@ -7,6 +7,10 @@
 //!   gen  : correspondence cases (inputs, what the real functions returned, the Coq term)
 //!   mon  : the property itself on the implementation: every modification must be rejected;
 //!          every accepted one is printed as a @@COLLISION with its framing class
+//!   net  : the client read paths (PrivClient::get; Client::get through vls-frontend's lss client with
+//!          ExternalPersistHelper::new_nonce / check_hmac, directly and through vls-util's
+//!          init_state as vlsd's signer does) against an in-process storage service behind a
+//!          recording / replaying man in the middle that does not know the secret
 //!   ref  : reference HMAC-SHA256 (one `input` of the whole message) over (key, message)
 //!          pairs read from a file — the messages are the bytes the Coq model serialises
 use lightning_signer::bitcoin::hashes::sha256::Hash as Sha256;
@@ -19,31 +23,15 @@ use serde_json::json;
 use std::collections::BTreeMap;
 use vharness::*;
 
-/// lightning-storage-server/lib/src/model.rs `Value` (the data model of the storage client),
-/// which util.rs refers to as `crate::Value`.  The library crate itself needs tonic/protoc
-/// and is not a dependency of the harness; its util.rs is compiled from the repository under
-/// test, unchanged, below.
-pub struct Value {
-    pub version: i64,
-    pub value: Vec<u8>,
-}
-
-/// lightning-storage-server/lib/src/util.rs of the tree under test, textually.  Built like
-/// vls-frontend / vlsd / vls-proxy build it (`default-features = false`: no "crypt").
-mod lss_util {
-    #![allow(dead_code, unused_imports, unused_macros)]
-    // shims for the `use` lines of util.rs only
-    mod bitcoin_hashes {
-        pub use lightning_signer::bitcoin::hashes::*;
-    }
-    mod log {
-        macro_rules! error {
-            ($($t:tt)*) => {};
-        }
-        pub(crate) use error;
-    }
-    include!(concat!(env!("VERIF_REPO"), "/lightning-storage-server/lib/src/util.rs"));
-}
+// The storage client library of the tree under test (feature `lss` of the harness crate; built like
+// vls-frontend / vlsd / vls-proxy build it: `default-features = false`, i.e. without "crypt").
+use lightning_storage_server::client::{Auth as LssAuth, ClientError, PrivAuth, PrivClient};
+use lightning_storage_server::proto::lightning_storage_server::{LightningStorage, LightningStorageServer};
+use lightning_storage_server::proto::{
+    GetReply, GetRequest, InfoReply, InfoRequest, KeyValue, PingReply, PingRequest, PutReply, PutRequest,
+};
+use lightning_storage_server::util as lss_util;
+use lightning_storage_server::Value;
 
 type Rec = (String, u64, Vec<u8>);
 
@@ -93,8 +81,9 @@ fn secret32(secret: &[u8]) -> Option<[u8; 32]> {
 fn helper_check(secret: [u8; 32], nonces: &[[u8; 32]], rs: &[Rec], received: &[u8]) -> bool {
     let mut h = ExternalPersistHelper::new(secret);
     for n in nonces {
-        let got = h.new_nonce(&Fixed(*n));
-        assert_eq!(&got, n);
+        // (whether the helper really adopts the entropy source's bytes is decided by the comparison
+        // with the model and by the wire monitor of `net`, not by an assertion here)
+        let _ = h.new_nonce(&Fixed(*n));
     }
     h.check_hmac(&muts(rs), received.to_vec())
 }
@@ -1034,7 +1023,394 @@ fn main() {
     match argv[1].as_str() {
         "gen" => gen(&args),
         "mon" => mon(&args),
+        "net" => net::run(&args),
         "ref" => reference(&args),
         other => panic!("unknown sub-domain {}", other),
+    }
+}
+
+// ------------------------------------------------------------------ net: reads over the wire
+//
+// "A response to a read is accepted only if it authenticates under the fresh nonce of that
+// request."  The nonce is chosen by the client side of each read path, so the paths themselves
+// are driven here, against an honest in-memory storage service (the tag logic of lssd, computed
+// with the library's own compute_shared_hmac) that sits behind a man in the middle.  The man in
+// the middle sees requests and replies, does not know any secret, and can (a) pass traffic
+// through, (b) answer a read with a reply it recorded earlier, (c) forward a read with another
+// nonce.  Monitors: every read of a client carries a 32-byte nonce not used before by that
+// client; (b) and (c) are refused; the genuine reply is accepted and is the current state.
+mod net {
+    use super::*;
+    use lightning_signer::bitcoin::secp256k1::{PublicKey, Secp256k1, SecretKey};
+    use lightning_signer::persist::SimpleEntropy;
+    use lightning_signer::signer::derive::KeyDerivationStyle;
+    use lightning_signer::signer::my_keys_manager::MyKeysManager;
+    use lightning_signer::util::test_utils::make_genesis_starting_time_factory;
+    use std::sync::{Arc, Mutex};
+    use tonic::transport::server::TcpIncoming;
+    use tonic::transport::Server;
+    use tonic::{Request, Response, Status};
+    use vls_frontend::external_persist::lss::Client as FrontendLssClient;
+    use vls_frontend::external_persist::ExternalPersist;
+    use vls_util::persist::ExternalPersistWithHelper;
+
+    #[derive(Clone, Debug)]
+    enum Mode {
+        Honest,
+        Replay(usize), // index into the replies recorded for this client
+        SwapNonce([u8; 32]),
+    }
+
+    struct Inner {
+        server_key: SecretKey,
+        store: Mutex<BTreeMap<Vec<u8>, BTreeMap<String, Value>>>, // per client id
+        mode: Mutex<Mode>,
+        wire_nonces: Mutex<BTreeMap<Vec<u8>, Vec<Vec<u8>>>>, // per client id, as sent
+        recorded: Mutex<BTreeMap<Vec<u8>, Vec<GetReply>>>,   // per client id, as seen on the wire
+    }
+
+    #[derive(Clone)]
+    struct Service(Arc<Inner>);
+
+    impl Service {
+        fn shared_secret(&self, client_id: &[u8]) -> Result<Vec<u8>, Status> {
+            let id = PublicKey::from_slice(client_id).map_err(|_| Status::unauthenticated("client id"))?;
+            Ok(PrivAuth::new_for_server(&self.0.server_key, &id).shared_secret)
+        }
+    }
+
+    #[tonic::async_trait]
+    impl LightningStorage for Service {
+        async fn ping(&self, request: Request<PingRequest>) -> Result<Response<PingReply>, Status> {
+            Ok(Response::new(PingReply { message: request.into_inner().message }))
+        }
+
+        async fn info(&self, _request: Request<InfoRequest>) -> Result<Response<InfoReply>, Status> {
+            let secp = Secp256k1::new();
+            let server_id = PublicKey::from_secret_key(&secp, &self.0.server_key).serialize().to_vec();
+            Ok(Response::new(InfoReply { version: "0.1".to_string(), server_id }))
+        }
+
+        async fn get(&self, request: Request<GetRequest>) -> Result<Response<GetReply>, Status> {
+            let request = request.into_inner();
+            let auth = request.auth.clone().ok_or_else(|| Status::invalid_argument("missing auth"))?;
+            let cid = auth.client_id.clone();
+            // --- the man in the middle sees the request
+            self.0.wire_nonces.lock().unwrap().entry(cid.clone()).or_default().push(request.nonce.clone());
+            let mode = self.0.mode.lock().unwrap().clone();
+            let forwarded_nonce = match &mode {
+                Mode::Replay(k) => {
+                    let rec = self.0.recorded.lock().unwrap();
+                    let reply = rec.get(&cid).and_then(|v| v.get(*k)).cloned().expect("nothing recorded");
+                    return Ok(Response::new(reply));
+                }
+                Mode::SwapNonce(n) => n.to_vec(),
+                Mode::Honest => request.nonce.clone(),
+            };
+            // --- the honest server (lssd: get_with_prefix, compute_shared_hmac over the request nonce)
+            let secret = self.shared_secret(&cid)?;
+            if auth.token != PrivAuth::new_for_server(&self.0.server_key, &PublicKey::from_slice(&cid).unwrap()).auth_token() {
+                return Err(Status::invalid_argument("invalid auth token"));
+            }
+            let kvs: Vec<(String, Value)> = self.0.store.lock().unwrap().entry(cid.clone()).or_default().iter()
+                .filter(|(k, _)| k.starts_with(&request.key_prefix))
+                .map(|(k, v)| (k.clone(), v.clone()))
+                .collect();
+            let hmac = lss_util::compute_shared_hmac(&secret, &forwarded_nonce, &kvs);
+            let kvs_proto = kvs.into_iter().map(|(key, v)| KeyValue { key, version: v.version, value: v.value }).collect();
+            let reply = GetReply { kvs: kvs_proto, hmac };
+            // --- the man in the middle records what passes
+            if let Mode::Honest = mode {
+                self.0.recorded.lock().unwrap().entry(cid).or_default().push(reply.clone());
+            }
+            Ok(Response::new(reply))
+        }
+
+        async fn put(&self, request: Request<PutRequest>) -> Result<Response<PutReply>, Status> {
+            let request = request.into_inner();
+            let auth = request.auth.ok_or_else(|| Status::invalid_argument("missing auth"))?;
+            let secret = self.shared_secret(&auth.client_id)?;
+            let kvs: Vec<(String, Value)> = request.kvs.into_iter()
+                .map(|kv| (kv.key, Value { version: kv.version, value: kv.value }))
+                .collect();
+            if lss_util::compute_shared_hmac(&secret, &[0x01], &kvs) != request.hmac {
+                return Err(Status::invalid_argument("invalid client HMAC"));
+            }
+            let mut all = self.0.store.lock().unwrap();
+            let store = all.entry(auth.client_id.clone()).or_default();
+            for (key, value) in kvs.iter() {
+                let expected = store.get(key).map(|v| v.version + 1).unwrap_or(0);
+                if value.version != expected {
+                    return Err(Status::invalid_argument("version conflict"));
+                }
+            }
+            for (key, value) in kvs.iter() {
+                store.insert(key.clone(), value.clone());
+            }
+            let hmac = lss_util::compute_shared_hmac(&secret, &[0x02], &kvs);
+            Ok(Response::new(PutReply { success: true, hmac, conflicts: vec![] }))
+        }
+    }
+
+    type State = BTreeMap<String, (u64, Vec<u8>)>;
+
+    #[derive(Clone, Copy, PartialEq, Debug)]
+    enum Path {
+        Priv,     // PrivClient::put / PrivClient::get
+        Direct,   // lss::Client (ExternalPersist) + helper.new_nonce(SimpleEntropy) + check_hmac
+        InitState, // ExternalPersistWithHelper::init_state, as vlsd/src/grpc/signer.rs connect()
+    }
+
+    enum Reader {
+        Priv { client: PrivClient, hmac_secret: [u8; 32] },
+        Helper { ep: ExternalPersistWithHelper },
+    }
+
+    fn j_state(s: &State) -> serde_json::Value {
+        json!(s.iter().map(|(k, (v, x))| json!([k, v, hex::encode(x)])).collect::<Vec<_>>())
+    }
+
+    /// one read through the real client path: Some(state) when the reply was accepted
+    async fn read(path: Path, reader: &mut Reader, given_nonce: &mut Option<Vec<u8>>) -> Result<State, String> {
+        match (path, reader) {
+            (Path::Priv, Reader::Priv { client, hmac_secret }) => {
+                match client.get(&hmac_secret[..], "".to_string()).await {
+                    Ok(kvs) => Ok(kvs.into_iter().map(|(k, v)| (k, (v.version as u64, v.value))).collect()),
+                    Err(ClientError::InvalidServerHmac()) => Err("refused:InvalidServerHmac".to_string()),
+                    Err(ClientError::InvalidHmac(_, _)) => Err("refused:InvalidHmac".to_string()),
+                    Err(e) => Err(format!("error:{:?}", e)),
+                }
+            }
+            (Path::Direct, Reader::Helper { ep }) => {
+                // the sequence of vls-util init_state / vls-proxy, spelled out so that the nonce handed
+                // to Client::get is known and can be compared with the one on the wire
+                let client = ep.persist_client.lock().await;
+                let mut helper = ep.helper.clone();
+                let nonce = helper.new_nonce(&SimpleEntropy::new());
+                *given_nonce = Some(nonce.to_vec());
+                match client.get("".to_string(), &nonce).await {
+                    Ok((muts, tag)) => {
+                        if helper.check_hmac(&muts, tag) {
+                            Ok(muts.into_iter().collect())
+                        } else {
+                            Err("refused:check_hmac".to_string())
+                        }
+                    }
+                    Err(e) => Err(format!("error:{:?}", e)),
+                }
+            }
+            (Path::InitState, Reader::Helper { ep }) => {
+                // a fresh local state map per read, so that what this read accepted is visible
+                let ep2 = ExternalPersistWithHelper {
+                    persist_client: ep.persist_client.clone(),
+                    state: Arc::new(Mutex::new(Default::default())),
+                    helper: ep.helper.clone(),
+                };
+                let ep3 = ep2.clone();
+                match tokio::spawn(async move { ep3.init_state().await }).await {
+                    Ok(()) => Ok(ep2.state.lock().unwrap().clone()),
+                    Err(e) if e.is_panic() => Err("refused:init_state-assert".to_string()),
+                    Err(e) => Err(format!("error:{:?}", e)),
+                }
+            }
+            _ => unreachable!(),
+        }
+    }
+
+    async fn write(path: Path, reader: &mut Reader, kvs: Vec<(String, u64, Vec<u8>)>) -> Result<(), String> {
+        match (path, reader) {
+            (Path::Priv, Reader::Priv { client, hmac_secret }) => {
+                let kvs = kvs.into_iter().map(|(k, v, x)| (k, Value { version: v as i64, value: x })).collect();
+                client.put(&hmac_secret[..], kvs).await.map_err(|e| format!("{:?}", e))
+            }
+            (_, Reader::Helper { ep }) => {
+                // vlsd/src/grpc/signer.rs store_with_client
+                let mut kvs = kvs;
+                kvs.sort();
+                let muts = Mutations::from_vec(kvs.into_iter().map(|(k, v, x)| (k, (v, x))).collect());
+                let client = ep.persist_client.lock().await;
+                let client_hmac = ep.helper.client_hmac(&muts);
+                client.put(muts, &client_hmac).await.map(|_| ()).map_err(|e| format!("{:?}", e))
+            }
+            _ => unreachable!(),
+        }
+    }
+
+    async fn session(inner: &Arc<Inner>, uri: &str, server_id: &PublicKey, rng: &mut Rng, idx: usize, stats: &mut BTreeMap<String, u64>) {
+        let path = [Path::Priv, Path::InitState, Path::Direct][idx % 3];
+        let seed = rng.bytes32();
+        // client identity: PrivClient from a raw key; the signer paths as vlsd's make_external_persist
+        // derives them (keys manager persistence key, ECDH with the server key)
+        let (client_id, mut reader) = match path {
+            Path::Priv => {
+                let mut k = seed;
+                k[0] = 1;
+                let client_key = SecretKey::from_slice(&k).unwrap();
+                let auth = PrivAuth::new_for_client(&client_key, server_id);
+                let id = auth.client_id.serialize().to_vec();
+                let client = PrivClient::new(uri, auth).await.expect("connect");
+                (id, Reader::Priv { client, hmac_secret: rng.bytes32() })
+            }
+            _ => {
+                let stf = make_genesis_starting_time_factory(NETWORK);
+                let km = MyKeysManager::new(KeyDerivationStyle::Native, &seed, NETWORK, &*stf);
+                let cid = km.get_persistence_pubkey();
+                let shared = km.get_persistence_shared_secret(server_id);
+                let token = km.get_persistence_auth_token(server_id);
+                let auth = LssAuth { client_id: cid, token: token.to_vec() };
+                let spk = lightning_signer::bitcoin::PublicKey::new(*server_id);
+                let client = FrontendLssClient::new(uri, &spk, auth).await.expect("connect");
+                let ep = ExternalPersistWithHelper {
+                    persist_client: Arc::new(tokio::sync::Mutex::new(Box::new(client) as Box<dyn ExternalPersist>)),
+                    state: Arc::new(Mutex::new(Default::default())),
+                    helper: ExternalPersistHelper::new(shared),
+                };
+                (cid.serialize().to_vec(), Reader::Helper { ep })
+            }
+        };
+        let keys: Vec<String> = (0..1 + rng.below(3)).map(|i| format!("channel/{:04}/{}", i, hex::encode(&seed[..2]))).collect();
+        let mut current: State = BTreeMap::new();
+        let mut history: Vec<State> = vec![]; // the state each recorded reply carried
+        let mut ops = vec![];
+        let mut findings: Vec<serde_json::Value> = vec![];
+        let nops = 6 + rng.below(7) as usize;
+        for step in 0..nops {
+            let choice = if step == 0 { 0 } else if step == 1 { 1 } else { rng.below(10) };
+            if choice == 0 || choice == 5 || choice == 6 {
+                // the state advances: some keys get their next version
+                let mut kvs = vec![];
+                for k in &keys {
+                    if kvs.is_empty() || rng.chance(1, 2) {
+                        let ver = current.get(k).map(|(v, _)| v + 1).unwrap_or(0);
+                        kvs.push((k.clone(), ver, format!("state {} of {}", ver, k).into_bytes()));
+                    }
+                }
+                *inner.mode.lock().unwrap() = Mode::Honest;
+                match write(path, &mut reader, kvs.clone()).await {
+                    Ok(()) => {
+                        for (k, v, x) in kvs {
+                            current.insert(k, (v, x));
+                        }
+                        ops.push(json!({"op": "put", "state": j_state(&current)}));
+                    }
+                    Err(e) => {
+                        findings.push(json!({"kind": "put-failed", "step": step, "error": e}));
+                        ops.push(json!({"op": "put", "error": e}));
+                    }
+                }
+                continue;
+            }
+            let nrec = history.len();
+            let mode = match choice {
+                1 | 2 | 3 => Mode::Honest,
+                4 | 7 | 8 if nrec > 0 => Mode::Replay(rng.below(nrec as u64) as usize),
+                9 => Mode::SwapNonce(rng.bytes32()),
+                _ => Mode::Honest,
+            };
+            *inner.mode.lock().unwrap() = mode.clone();
+            let before = inner.wire_nonces.lock().unwrap().get(&client_id).map_or(0, |v| v.len());
+            let mut given = None;
+            let res = read(path, &mut reader, &mut given).await;
+            let wire: Vec<Vec<u8>> = inner.wire_nonces.lock().unwrap().get(&client_id).map_or(vec![], |v| v[before..].to_vec());
+            *inner.mode.lock().unwrap() = Mode::Honest;
+            let mname = match &mode {
+                Mode::Honest => "genuine".to_string(),
+                Mode::Replay(k) => format!("replay:{}", k),
+                Mode::SwapNonce(_) => "swap-nonce".to_string(),
+            };
+            let outcome = match &res {
+                Ok(_) => "accepted".to_string(),
+                Err(e) => e.clone(),
+            };
+            *stats.entry(format!("{:?}:{}:{}", path, mname.split(':').next().unwrap(), outcome.split(':').next().unwrap())).or_default() += 1;
+            ops.push(json!({"op": "read", "reply": mname, "wire_nonces": wire.iter().map(hex::encode).collect::<Vec<_>>(),
+                            "outcome": outcome, "returned": res.as_ref().ok().map(j_state)}));
+            if wire.len() != 1 {
+                findings.push(json!({"kind": "request-count", "step": step, "requests": wire.len()}));
+            }
+            if let (Some(g), Some(w)) = (&given, wire.first()) {
+                if g != w {
+                    findings.push(json!({"kind": "nonce-not-passed-through", "step": step, "given": hex::encode(g), "on_wire": hex::encode(w)}));
+                }
+            }
+            match (&mode, &res) {
+                (Mode::Honest, Ok(st)) => {
+                    history.push(current.clone());
+                    if *st != current {
+                        findings.push(json!({"kind": "genuine-reply-wrong-state", "step": step, "returned": j_state(st), "current": j_state(&current)}));
+                    }
+                }
+                (Mode::Honest, Err(e)) => {
+                    if e.starts_with("refused") {
+                        // the man in the middle recorded it all the same
+                        history.push(current.clone());
+                    }
+                    findings.push(json!({"kind": "genuine-reply-refused", "step": step, "outcome": e}));
+                }
+                (Mode::Replay(k), Ok(st)) => {
+                    findings.push(json!({"kind": "replayed-reply-accepted", "step": step, "replayed_read": k,
+                        "returned": j_state(st), "current": j_state(&current), "rolled_back": *st != current,
+                        "recorded_state": j_state(&history[*k])}));
+                }
+                (Mode::SwapNonce(n), Ok(st)) => {
+                    findings.push(json!({"kind": "reply-under-other-nonce-accepted", "step": step, "server_nonce": hex::encode(n), "returned": j_state(st)}));
+                }
+                (_, Err(e)) if !e.starts_with("refused") => {
+                    findings.push(json!({"kind": "read-error", "step": step, "outcome": e}));
+                }
+                _ => {}
+            }
+        }
+        // the nonces this client sent, in order: 32 bytes each, none used before
+        let nonces: Vec<Vec<u8>> = inner.wire_nonces.lock().unwrap().get(&client_id).cloned().unwrap_or_default();
+        let mut fresh = true;
+        for (i, n) in nonces.iter().enumerate() {
+            if n.len() != 32 {
+                fresh = false;
+                findings.push(json!({"kind": "nonce-length", "read": i, "nonce": hex::encode(n), "length": n.len()}));
+            }
+            if let Some(j) = nonces[..i].iter().position(|m| m == n) {
+                fresh = false;
+                findings.push(json!({"kind": "nonce-reused", "read": i, "first_used_by_read": j, "nonce": hex::encode(n)}));
+            }
+        }
+        let ns: Vec<String> = nonces.iter().map(|n| coq_bytes(n)).collect();
+        emit("NET", json!({
+            "session": idx, "path": format!("{:?}", path), "client_id": hex::encode(&client_id), "ops": ops,
+            "nonces": nonces.iter().map(hex::encode).collect::<Vec<_>>(), "nonces_fresh": fresh,
+            "findings": findings, "coq": format!("CNonces {}", coq_list(&ns)),
+        }));
+    }
+
+    pub fn run(args: &Args) {
+        std::panic::set_hook(Box::new(|_| {})); // init_state reports a refusal by panicking
+        let rt = tokio::runtime::Builder::new_multi_thread().worker_threads(2).enable_all().build().expect("runtime");
+        let mut rng = Rng::new(args.seed ^ 0x171717);
+        let n = args.n;
+        rt.block_on(async move {
+            let secp = Secp256k1::new();
+            let server_key = SecretKey::from_slice(&[0x11; 32]).unwrap();
+            let server_id = PublicKey::from_secret_key(&secp, &server_key);
+            let inner = Arc::new(Inner {
+                server_key,
+                store: Mutex::new(BTreeMap::new()),
+                mode: Mutex::new(Mode::Honest),
+                wire_nonces: Mutex::new(BTreeMap::new()),
+                recorded: Mutex::new(BTreeMap::new()),
+            });
+            let listener = tokio::net::TcpListener::bind("127.0.0.1:0").await.expect("bind");
+            let uri = format!("http://{}", listener.local_addr().unwrap());
+            let incoming = TcpIncoming::from_listener(listener, true, None).expect("incoming");
+            let service = LightningStorageServer::new(Service(inner.clone()));
+            tokio::spawn(async move {
+                Server::builder().add_service(service).serve_with_incoming(incoming).await.expect("serve");
+            });
+            let mut stats = BTreeMap::new();
+            for idx in 0..n {
+                session(&inner, &uri, &server_id, &mut rng, idx, &mut stats).await;
+            }
+            let total: usize = inner.wire_nonces.lock().unwrap().values().map(|v| v.len()).sum();
+            emit("STATS", json!({"domain": "hmac-net", "sessions": n, "reads_on_wire": total, "outcomes": stats}));
+        });
     }
 }
